@@ -116,7 +116,10 @@ pub fn gen_cond(g: &mut Gen) -> Vec<String> {
 }
 
 fn call_arg(g: &mut Gen) -> String {
-    match g.rng.below(5) {
+    match g.rng.below(6) {
+        // an argument VALUE that is the NAME of a variable of the caller (a value is not a key:
+        // a scoped body must not see that variable because of it)
+        5 => g.rng.pick_s(&["v0", "n0", "x", "fa", "v1"]).to_string(),
         0 => "${v0}".to_string(),
         1 => "${n0}".to_string(),
         2 => "${1}".to_string(),
